@@ -123,6 +123,31 @@ CHECKS = {
             "Hopcroft's splitter schedule and PartitionRefinement's bookkeeping are not modelled (the partition they must reach is unique and "
             "is what is compared).",
             "7/C05"),
+    "C03": ("Coq theorems about executable models of TMTape and the DTM/NTM/MNTM simulators against textbook step relations on a "
+            "bi-infinite tape + differential correspondence against /repo via the extracted model",
+            "Proved for all tables, inputs and fuels (unbounded): tape write/move commute with the bi-infinite tape incl. L from cell 0 "
+            "and R past the end; k-th DTM configuration = k-fold transition function; k-th NTM set = configurations reachable in k moves; "
+            "DTM/NTM verdicts characterised exactly per fuel (accept iff final reached within budget, reject iff all branches stuck); "
+            "MNTM BFS: visited configurations reachable, accept only on a reachable final state, reject only when every reachable "
+            "configuration was visited and none is final; deterministic table as DTM/NTM/1-tape MNTM gives equal verdicts whenever the "
+            "runs return. Partial: the breadth-first ORDER of MNTM visits (non-decreasing depth) is stated "
+            "(C03_mntm_visits_reachable_statement) but only the reachability/completeness part is proved (..._partial). Model tied to the "
+            "code by exact comparison of traces (state, head-relative non-blank cells), NTM levels as sets, generator endings, "
+            "accepts_input/read_input under a step budget.",
+            "Runs are compared up to the step budget only (halting is not assumed).", "7/C03"),
+    "C17": ("Coq theorems about an executable, index-by-index model of MNTM.read_input_as_ntm's extended-tape splicing (after the "
+            "left-boundary repair) against the C03 tape step and the multitape step relation + differential correspondence against /repo",
+            "Proved for all machines with consistent tapes, inputs and fuels (unbounded): one virtual-tape write+move re-establishes the "
+            "encoding for L/R/N in the interior, at the left end and at the right end (C17_apply_move_encodes), hence for all tapes of a "
+            "transition; head extraction on an encoding never reports a malformed tape; one BFS iteration appends exactly the encodings of the "
+            "multitape successors and accepts iff the state is final (C17_step_simulates); the simulation's verdict is sound for every fuel and "
+            "it ends only by acceptance, the rejection exception or fuel exhaustion (C17_simulation_verdict); simulation and native run give "
+            "the same verdict for every pair of fuels on which both return (C17_verdict_agreement). Model tied to the code by exact comparison "
+            "of every yielded (state, extended tape, position) and the generator ending; the implementation's two runs are also compared with "
+            "each other directly.",
+            "Tape alphabets containing the marker characters '^' or '_' are outside the model (typed markers) and are not generated. "
+            "The model is of the repaired left-boundary branch (DESIGN section 8 row 11); on a tree without that repair the check reports "
+            "the defect as a violation.", "7/C17"),
 }
 
 PENDING = {}
